@@ -219,7 +219,7 @@ func c01Run(c *core.C, idx int) {
 	s := gen.Generate(c.Rand, c01Config(c))
 	feat := c01Decorate(c, s)
 	v := newWSView(s)
-	version := []string{"v2", "v2", "v1"}[c.Rand.IntN(3)]
+	version := []string{"v2", "v2", "v1", "v1beta1"}[c.Rand.IntN(4)]
 	wsDir := filepath.Join(c.Tmp, "c01ws")
 	os.RemoveAll(wsDir)
 	defer os.RemoveAll(wsDir)
@@ -579,7 +579,7 @@ func c01Error(c *core.C, idx int) {
 	os.RemoveAll(parent)
 	defer os.RemoveAll(parent)
 	wsDir := filepath.Join(parent, "ws")
-	version := []string{"v2", "v1"}[c.Rand.IntN(2)]
+	version := []string{"v2", "v1", "v1beta1"}[c.Rand.IntN(3)]
 	run.WriteTree(wsDir, s.WorkspaceFiles(v.R, gen.WorkspaceOpts{Version: version}))
 	env := run.BufEnv(filepath.Join(c.Tmp, "home"), nil)
 	type form struct {
@@ -657,7 +657,7 @@ func init() {
 	core.Register(&core.Check{
 		ID:    "C01",
 		Level: "exploration",
-		Rule: "PRNG-generated workspaces (1–4 modules, v2 buf.yaml or v1 buf.work.yaml, 2–6 files per module, proto2/proto3/editions/no-syntax, import DAGs with cross-module edges, WKT, public and unused imports, options, extensions, groups, services) " +
+		Rule: "PRNG-generated workspaces (1–4 modules, v2 buf.yaml or v1 / v1beta1 buf.work.yaml, 2–6 files per module, proto2/proto3/editions/no-syntax, import DAGs with cross-module edges, WKT, public and unused imports, options, extensions, groups, services) " +
 			"× 4–5 target selections each (workspace root or one module directory; random --path/--exclude-path sets over files and directories strictly inside a module, no --path inside an --exclude-path); " +
 			"plus one planted compile error per error case (7 plant kinds) × 4 spellings of the input path. distinct/non-trivial = distinct (config version, selection kind, input kind, #modules, #files, import-edge bucket, feature set) classes",
 		Assumptions: []string{
